@@ -17,7 +17,8 @@ integer cast is applied to a value read from the file; the env loader parses int
 fault_percentage and num_workers the condition under which is_valid_config sets `is_valid = false` has the truth table of the documented range;
 is_valid starts true, is only ever set to false, and is the return value; the seed length rule mentions 32.  (5) Refusal: a make_config error and an invalid
 configuration both end in process::exit(1) before any worker thread is spawned; an unknown YAML key returns Err; the Result of every parse / try_from applied to a setting's text is enforced (unwrap/expect/?/match on Err that
-refuses), never swallowed by ok(), unwrap_or(..) or a default; the seed length rule has the truth table of `len == 32`.
+refuses), never swallowed by ok(), unwrap_or(..) or a default; the seed length rule has the truth table of `len == 32`; both loaders construct the
+field of every Required setting as the constant unset value (0 / "" / empty Vec) that is_valid_config refuses, so a missing required setting fails start-up.
 A setting's field is assigned only from its own key / variable: no assignment outside a key arm (file) and no other assignment (environment), so a
 written value cannot be replaced after loading and before validation.  (6) Sibling semantics: both loaders lower-case client_stats and compare with "yes"/"on", decode the seed with the same encoding and parse kms_protection
 with the same FromStr.The arm of a key stores its value on every path that goes on to the next key, and a variable that is set is stored on every path (no dependence on what was loaded before).
@@ -545,6 +546,40 @@ def run(ctx):
     codes_bad = [bb for bb, a in exits if a[0] != ("int", 0) and any(r[0] in ("False",) and is_call(r[1], "is_valid_config") or (r[0] == "Eq" and isinstance(r[1], tuple) and r[1][0] == "discr" and is_call(r[1][1], "make_config") and r[2] == ("int", 1)) or (r[0] == "True" and isinstance(r[1], tuple) and r[1][0] == "un") for r in flow.rel_facts_at(MIN, bb))]
     ctx.check("refusal", "invalid-config-exits-nonzero", len([1 for bb, a in exits if a[0] == ("int", 1)]) >= 2, "make_config errors and invalid configurations exit with status 1",
               "expected process::exit(1) on both failure arms, found exits %s" % [fmt(a[0]) for bb, a in exits], ctx.loc(main))
+
+    # ------------------------------------------------------------------ a missing required setting: the loaders report nothing themselves when a key or
+    # variable is absent; start-up fails because the field still holds the value it was constructed with and is_valid_config refuses exactly that
+    # value (port 0, empty interface, empty seed: the range / non-empty rules above).  So every construction of a loader must give the field of a
+    # Required setting that unset value - a constant, not something computed or taken from another configuration source.
+    def unset_value(t):
+        t = values.strip_payload(W.expand(t)) if t is not None else None
+        if t in (("int", 0), ("str", "")):
+            return True
+        if is_call(t) and callee_name(t[1]) in ("new", "default") and not t[2] and ("Vec" in t[1] or "String" in t[1]):
+            return True
+        if is_call(t) and callee_name(t[1]) in ("to_string", "to_owned", "from", "into", "to_vec") and len(t[2]) == 1 and values.strip_payload(t[2][0]) in (("str", ""), ("bytes", b""), ("bytes", "")):
+            return True
+        if isinstance(t, tuple) and t and t[0] == "vec" and len(t) > 1 and not t[1]:
+            return True
+        return False
+    nreq = 0
+    for lname, adt in (("file", FILE), ("env", ENVC)):
+        ctors = W.ctor_fields(adt)
+        if not ctors:
+            raise AnchorMissing("a construction of %s" % adt)
+        for k, envname, need in rows:
+            if need != "Required":
+                continue
+            gf, _gr = getter_field(W, adt, GETTER.get(k, k))
+            for (cfn_, cbb, cidx, cfields) in ctors:
+                nreq += 1
+                init = cfields.get(gf)
+                ctx.check("refusal", "%s/required-%s-starts-out-unset" % (lname, k), gf is not None and init is not None and unset_value(init),
+                          "%s.%s starts as the unset value is_valid_config refuses (%s)" % (adt.split("::")[-1], gf, fmt(init) if init is not None else "?"),
+                          "%s is a Required setting, but %s constructs its field as %s: when the %s is missing the server starts with that value instead of refusing"
+                          % (k, adt.split("::")[-1], fmt(W.expand(init)) if init is not None else "nothing we can read", "key" if lname == "file" else "variable"),
+                          cfn_.loc(cbb) if hasattr(cfn_, "loc") else None)
+    ctx.floor("refusal-required", nreq, 6, "initial values of Required settings in the two loaders")
 
     # ------------------------------------------------------------------ sibling semantics
     def client_stats_literals(fn, ev, field):
